@@ -26,6 +26,9 @@ pub struct FsCfg {
     pub depth: usize,
     pub sync_prob: f64,
     pub block: Option<u64>,
+    /// operations applied (to the implementation and the reference) before the exploration
+    /// starts; the history and its depth bound count from there
+    pub prelude: Vec<Op>,
 }
 
 impl FsCfg {
@@ -450,6 +453,21 @@ fn signature(cfg: &FsCfg, hist: &[Op], clause: &str, obs: &str) -> (String, Vec<
         if recreated {
             sig.push_str(":old-name-recreated");
         }
+        // The listed family is about files that still have pending operations when they are
+        // renamed. If, in the history as it was executed, every renamed file (and a replaced
+        // destination) was fully durable at that moment — data synced after its last change,
+        // entry synced after its creation — the divergence is not part of it, whatever the
+        // minimised history looks like.
+        // (only for renames within one directory that are followed by nothing but directory
+        // syncs and crashes: a rename across directories, or work under the new name while
+        // the rename itself is pending, is the listed family whatever the files' state)
+        let post_rename_work = {
+            let first = cur.iter().position(|o| matches!(o, Op::RenameF(..))).unwrap_or(0);
+            cur[first + 1..].iter().any(|o| !matches!(o, Op::SyncDir(_) | Op::Crash | Op::CrashTorn(_) | Op::RenameF(..)))
+        };
+        if !cross && !post_rename_work && renames_only_durable_files(hist) {
+            sig.push_str(":renamed-files-were-fully-durable");
+        }
         sig.push('|');
         sig.push_str(obs);
         return (sig, cur);
@@ -482,6 +500,44 @@ fn signature(cfg: &FsCfg, hist: &[Op], clause: &str, obs: &str) -> (String, Vec<
     (format!("{}|{}", obs, parts.join(" ")), cur)
 }
 
+/// true iff the history contains a file rename and, at every file rename, source and (if
+/// present) destination had no unsynced change: a data sync after the last modification and
+/// a sync of the parent directory after the creation
+fn renames_only_durable_files(hist: &[Op]) -> bool {
+    let modifies = |o: &Op, p: &str| -> bool {
+        match o {
+            Op::Create(_) | Op::CreateNew(_) | Op::OpenTrunc(_) | Op::WriteAt(..) | Op::WriteAtSynced(..) | Op::Append(_) | Op::SetLen(..) | Op::Cursor(_) | Op::AppendCursor(_) | Op::RemoveFile(_) => {
+                o.paths().first() == Some(&p)
+            }
+            Op::RenameF(a, b) => FILES[*a as usize] == p || FILES[*b as usize] == p,
+            _ => false,
+        }
+    };
+    let durable_at = |i: usize, p: &str| -> bool {
+        // last modification of p before i
+        let Some(last) = (0..i).rev().find(|&j| modifies(&hist[j], p)) else { return true };
+        if matches!(hist[last], Op::RenameF(..) | Op::RemoveFile(_)) {
+            return false;
+        }
+        let data = (last + 1..i).any(|j| matches!(hist[j], Op::SyncAll(f, _) | Op::SyncData(f) | Op::SyncAllRO(f) if FILES[f as usize] == p));
+        let first = (0..i).find(|&j| modifies(&hist[j], p)).unwrap();
+        let parent = crate::model::parent(p);
+        let entry = (first + 1..i).any(|j| matches!(hist[j], Op::SyncDir(d) if crate::ops::dir_name(d) == parent));
+        let crashed = (first..i).any(|j| matches!(hist[j], Op::Crash | Op::CrashTorn(_)));
+        data && entry && !crashed
+    };
+    let mut any = false;
+    for (i, o) in hist.iter().enumerate() {
+        if let Op::RenameF(a, b) = o {
+            any = true;
+            if !durable_at(i, FILES[*a as usize]) || !durable_at(i, FILES[*b as usize]) {
+                return false;
+            }
+        }
+    }
+    any
+}
+
 impl System for FsSys {
     type Cfg = FsCfg;
 
@@ -500,7 +556,7 @@ impl System for FsSys {
             let _ = exec_impl(Op::Create(1));
             observe_impl(&|_| false)
         };
-        FsSys {
+        let mut sys = FsSys {
             fs,
             other,
             other_snapshot,
@@ -515,7 +571,13 @@ impl System for FsSys {
             skipped: false,
             tainted: false,
             verbose: false,
+        };
+        for op in cfg.prelude.clone() {
+            if let Err(v) = sys.step(op) {
+                vx_core::machinery_error(&format!("{}: the prelude already diverges at `{}`: {}", cfg.name, op.describe(), v.detail));
+            }
         }
+        sys
     }
 
     fn actions(&self, out: &mut Vec<u16>) {
@@ -562,7 +624,7 @@ impl System for FsSys {
                     }
                     let obs = v.sig.split('|').next().unwrap_or("").to_string();
                     let (sig, _) = signature(&self.cfg, &self.hist, &v.clause, &obs);
-                    if sig.starts_with("fs-name-reuse:") && !sig.contains(":recreated-with-truncate") && !sig.contains(":exposed-by-sync-of-another-directory") {
+                    if sig.starts_with("fs-name-reuse:") && !sig.contains(":recreated-with-truncate") && !sig.contains(":exposed-by-sync-of-another-directory") && !sig.contains(":renamed-files-were-fully-durable") {
                         self.terminal = true;
                         self.skipped = true;
                     } else {
